@@ -159,6 +159,14 @@ EndStep ==      \* commit: the model projects to what was logged
   \* C10 - the request went to a stream made for exactly its origin, TLS per scheme
   \* C14 - its head was seen on at most one stream
   /\ (Ev.e = "Q" /\ Ev.got) => (Chk("o.Route", Ev.route = "ok") /\ Chk("o.AtMostOnce", Ev.nsent <= 1))
+  \* C01 - status line / headers / body are the ones the server sent in answer to THIS caller
+  \*       (the peers echo a per-call token), and a connection that reports idle has finished
+  \*       the previous exchange completely in both directions
+  /\ (Ev.e = "Q" /\ Ev.got) => Chk("o.OwnResponse", Ev.tokok)
+  /\ (Ev.e = "Q" /\ Ev.bend # "") => Chk("o.OwnBody", Ev.bodyok)
+  /\ Chk("o.ReuseGate", \A c \in Known(Ev.obs) : (Ev.obs.cs[c].st = "idle" /\ ~Ev.obs.cs[c].mux /\ ~Ev.obs.cs[c].ex) => Ev.obs.cs[c].xc)
+  \* C14 - however the call ended, its request head was seen on at most one stream
+  /\ (Ev.e = "Q" /\ Ev.ret # "") => Chk("o.AtMostOnceAtReturn", Ev.rsent <= 1)
   /\ Ev.e = "Q" /\ Ev.r \in TReq =>
         Chk("ret", IF Ev.ret = "" THEN pc[Ev.r] \notin Terminal ELSE pc[Ev.r] = RetPc(Ev.ret))
   /\ l' = l + 1 /\ k' = 0
